@@ -27,7 +27,9 @@ package main
 // ticket; the harness supplies a discharge of its own making for the other one), caveats embedded in the tickets
 // (the application must get exactly them from CaveatsFromRequest: `!cavs` otherwise), the JSON shape of the init
 // body, how a secret is spelled in a URL (extra path segments, trailing slash, percent-encoding, query), the Go
-// caveat kind behind a caveat id, whether caveat objects are shared between calls, application message texts.
+// caveat kind behind a caveat id, whether caveat objects are shared between calls, application message texts,
+// the representation of the tp.Store behind the services (see tpWrapStore: a third of the episodes run on a store
+// that serialises / returns empty-not-nil / nil-for-empty / copies on write).
 //
 //   (const e2e:…)      the real tp.Client against the two services over an in-process RoundTripper: the name of
 //                      the constant is what the scripted applications entitle the client to; model-independent
@@ -158,12 +160,60 @@ type tpWorld struct {
 
 // ---- wrapping store -------------------------------------------------------------------------
 
+// tp.Store is the exported extension point: a deployment puts a database behind it.  Two thirds of the episodes run
+// on the MemoryStore as it is ("memory"); the others on a representation a legitimate Store may have instead, all
+// of them the same store at the level the model sees:
+//
+//	serialising    what goes in is copied (as if written to a row), what comes out is a fresh deep copy whose empty
+//	               fields are EMPTY, NOT NIL slices (BLOB NOT NULL DEFAULT '', a Redis hash field, a JSON/gob round
+//	               trip): a pending flow reads back as {Ticket, 0, []byte{}}
+//	nil-for-empty  the reverse: what comes out has nil for every empty field
+//	copy-on-write  Insert/Update store a deep copy: the caller's StoreData and its slices are not the stored ones
 type tpWrapStore struct {
 	w     *tpWorld
 	inner *tp.MemoryStore
+	repr  string
 }
 
 var _ tp.Store = (*tpWrapStore)(nil)
+
+var tpStoreReprs = []string{"memory", "memory", "memory", "memory", "memory", "memory", "serialising", "nil-for-empty", "copy-on-write"}
+
+// what the store keeps of a StoreData handed to Insert/Update
+func (s *tpWrapStore) in(sd *tp.StoreData) *tp.StoreData {
+	if sd == nil || (s.repr != "serialising" && s.repr != "copy-on-write") {
+		return sd
+	}
+	cp := tp.StoreData{ResponseStatus: sd.ResponseStatus}
+	if sd.Ticket != nil {
+		cp.Ticket = append([]byte{}, sd.Ticket...)
+	}
+	if sd.ResponseBody != nil {
+		cp.ResponseBody = append([]byte{}, sd.ResponseBody...)
+	}
+	return &cp
+}
+
+// what Get* hands out
+func (s *tpWrapStore) out(sd *tp.StoreData) *tp.StoreData {
+	if sd == nil {
+		return nil
+	}
+	switch s.repr {
+	case "serialising":
+		return &tp.StoreData{Ticket: append([]byte{}, sd.Ticket...), ResponseStatus: sd.ResponseStatus, ResponseBody: append([]byte{}, sd.ResponseBody...)}
+	case "nil-for-empty":
+		cp := tp.StoreData{ResponseStatus: sd.ResponseStatus}
+		if len(sd.Ticket) > 0 {
+			cp.Ticket = sd.Ticket
+		}
+		if len(sd.ResponseBody) > 0 {
+			cp.ResponseBody = sd.ResponseBody
+		}
+		return &cp
+	}
+	return sd
+}
 
 func (s *tpWrapStore) park(ctx context.Context, kind string) *tpThread {
 	th, _ := ctx.Value(tpThreadKey{}).(*tpThread)
@@ -182,7 +232,7 @@ func (s *tpWrapStore) log(th *tpThread, f string, a ...any) {
 
 func (s *tpWrapStore) Insert(ctx context.Context, sd *tp.StoreData) (string, string, error) {
 	th := s.park(ctx, "ins")
-	us, ps, err := s.inner.Insert(ctx, sd)
+	us, ps, err := s.inner.Insert(ctx, s.in(sd))
 	if err == nil {
 		fl := &tpFlow{n: len(s.w.flows) + 1, us: us, ps: ps, pollLive: true, userLive: true}
 		if th0, _ := ctx.Value(tpThreadKey{}).(*tpThread); th0 != nil {
@@ -204,6 +254,7 @@ func hitmiss(ok bool, a, b string) string {
 func (s *tpWrapStore) GetByPollSecret(ctx context.Context, x string) (*tp.StoreData, error) {
 	th := s.park(ctx, "get")
 	sd, err := s.inner.GetByPollSecret(ctx, x)
+	sd = s.out(sd)
 	s.log(th, "get:poll:%s:%s", s.w.sref(x), hitmiss(err == nil && sd != nil, "hit", "miss"))
 	return sd, err
 }
@@ -211,20 +262,21 @@ func (s *tpWrapStore) GetByPollSecret(ctx context.Context, x string) (*tp.StoreD
 func (s *tpWrapStore) GetByUserSecret(ctx context.Context, x string) (*tp.StoreData, error) {
 	th := s.park(ctx, "get")
 	sd, err := s.inner.GetByUserSecret(ctx, x)
+	sd = s.out(sd)
 	s.log(th, "get:user:%s:%s", s.w.sref(x), hitmiss(err == nil && sd != nil, "hit", "miss"))
 	return sd, err
 }
 
 func (s *tpWrapStore) UpdateByPollSecret(ctx context.Context, x string, sd *tp.StoreData) error {
 	th := s.park(ctx, "upd")
-	err := s.inner.UpdateByPollSecret(ctx, x, sd)
+	err := s.inner.UpdateByPollSecret(ctx, x, s.in(sd))
 	s.log(th, "upd:poll:%s:%s", s.w.sref(x), hitmiss(err == nil, "ok", "miss"))
 	return err
 }
 
 func (s *tpWrapStore) UpdateByUserSecret(ctx context.Context, x string, sd *tp.StoreData) error {
 	th := s.park(ctx, "upd")
-	err := s.inner.UpdateByUserSecret(ctx, x, sd)
+	err := s.inner.UpdateByUserSecret(ctx, x, s.in(sd))
 	s.log(th, "upd:user:%s:%s", s.w.sref(x), hitmiss(err == nil, "ok", "miss"))
 	return err
 }
@@ -379,7 +431,8 @@ func newTPWorld(r *Rng, o *Out, size, ntoks int) *tpWorld {
 		panic(err)
 	}
 	w.ms = ms
-	ws := &tpWrapStore{w: w, inner: ms}
+	ws := &tpWrapStore{w: w, inner: ms, repr: pick(r, tpStoreReprs)}
+	o.count("world.store=" + ws.repr)
 	for v := range w.svcs {
 		w.keys[v] = macaroon.NewEncryptionKey()
 		w.svcs[v] = &tp.TP{Location: w.locs[v], Key: w.keys[v], Store: ws}
@@ -1452,11 +1505,19 @@ func (e *tpE2E) decide(sc *tpE2EScript) {
 	}
 }
 
-func (e *tpE2E) serve(v int, a *tpAct, req *http.Request) (*http.Response, *tpThread) {
-	th := &tpThread{act: a}
+// (a handler that panics: net/http recovers and drops the connection; here it is recorded and the client gets a
+// transport error — the panic runs in a goroutine of the client, it must not end the process)
+func (e *tpE2E) serve(v int, a *tpAct, req *http.Request) (resp *http.Response, th *tpThread) {
+	th = &tpThread{act: a}
 	rec := httptest.NewRecorder()
-	e.w.mux(v, e.w.svcs[v], a.kind, rec, req.WithContext(context.WithValue(req.Context(), tpThreadKey{}, th)))
-	resp := rec.Result()
+	if p := guard(func() string {
+		e.w.mux(v, e.w.svcs[v], a.kind, rec, req.WithContext(context.WithValue(req.Context(), tpThreadKey{}, th)))
+		return ""
+	}); p != "" {
+		e.note("%s-handler:%s", a.kind, p)
+		return nil, th
+	}
+	resp = rec.Result()
 	resp.Request = req
 	return resp, th
 }
@@ -1481,7 +1542,10 @@ func (e *tpE2E) RoundTrip(req *http.Request) (*http.Response, error) {
 					if th.note != "" {
 						e.note("init%s", th.note)
 					}
-					if sc.mode == "poll" || sc.mode == "user" {
+					if resp == nil {
+						return nil, errors.New("connection dropped")
+					}
+					if (sc.mode == "poll" || sc.mode == "user") && len(w.flows) > 0 {
 						f := w.flows[len(w.flows)-1]
 						sc.us, sc.ps = f.us, f.ps
 					}
@@ -1503,6 +1567,9 @@ func (e *tpE2E) RoundTrip(req *http.Request) (*http.Response, error) {
 						e.decide(sc)
 					}
 					resp, _ := e.serve(v, &tpAct{kind: "poll", svc: v, secret: ps}, req)
+					if resp == nil {
+						return nil, errors.New("connection dropped")
+					}
 					return resp, nil
 				}
 			}
@@ -1523,7 +1590,7 @@ func (e *tpE2E) userURL(ctx context.Context, u string) error {
 			if sc.visit {
 				req := httptest.NewRequest("GET", w.origin(sc.tok.svc)+u+"?return_to=https%3A%2F%2Fclient.example%2Fdone", nil)
 				resp, th := e.serve(sc.tok.svc, &tpAct{kind: "uservisit", svc: sc.tok.svc, secret: sc.us}, req)
-				if resp.StatusCode != 200 || !th.invoked || th.note != "" {
+				if resp != nil && (resp.StatusCode != 200 || !th.invoked || th.note != "") {
 					e.note("user-page:%d%s", resp.StatusCode, th.note)
 				}
 			}
